@@ -265,3 +265,78 @@ def stable_text(node, func_node, module_names=()):
         if isinstance(n, ast.Name) and n.id in ren:
             n.id = "_"
     return ast.unparse(c)
+
+
+def canon_inline(func_node):
+    """Normal form for shape comparisons: a deep copy of the function in which every local `x` whose definitions are all plain
+    statements `x = e`, each immediately followed (same block) by a simple statement that reads x exactly once, and that is read
+    nowhere else, is substituted into that statement.  `t = a*b; r = t + c` and `r = a*b + c` get the same normal form, so a
+    rule that compares statement shapes does not depend on which intermediate results a developer chose to name."""
+    import copy
+    fn = copy.deepcopy(func_node)
+    params = {a.arg for a in fn.args.args + fn.args.kwonlyargs + fn.args.posonlyargs}
+    simple = (ast.Assign, ast.AugAssign, ast.Return, ast.Expr)
+    for _ in range(8):
+        loads, stores = {}, {}
+        for n in ast.walk(fn):
+            if isinstance(n, ast.Name):
+                d = stores if isinstance(n.ctx, (ast.Store, ast.Del)) else loads
+                d[n.id] = d.get(n.id, 0) + 1
+        sites = {}      # name -> list of (block, index) or None when disqualified
+
+        def scan(node):
+            for field in ("body", "orelse", "finalbody"):
+                blk = getattr(node, field, None)
+                if not isinstance(blk, list):
+                    continue
+                for i, st in enumerate(blk):
+                    if isinstance(st, ast.Assign) and len(st.targets) == 1 and isinstance(st.targets[0], ast.Name):
+                        x = st.targets[0].id
+                        nx = blk[i + 1] if i + 1 < len(blk) else None
+                        ok = nx is not None and isinstance(nx, simple) and not isinstance(st.value, (ast.Name, ast.Constant)) and \
+                            sum(1 for n in ast.walk(nx) if isinstance(n, ast.Name) and n.id == x and isinstance(n.ctx, ast.Load)) == 1 and \
+                            not any(isinstance(n, ast.Name) and n.id == x and isinstance(n.ctx, ast.Store) for n in ast.walk(nx)) and \
+                            not any(isinstance(n, ast.Name) and n.id == x for n in ast.walk(st.value))
+                        if sites.get(x, []) is not None:
+                            if ok:
+                                sites.setdefault(x, []).append((blk, st))
+                            else:
+                                sites[x] = None
+                    if not isinstance(st, (ast.FunctionDef, ast.ClassDef)):
+                        scan(st)
+        scan(fn)
+        todo = {x: s for x, s in sites.items() if s and x not in params and stores.get(x) == len(s) and loads.get(x) == len(s)}
+        if not todo:
+            break
+        # one name per round: substituted statements may be definitions of other candidates
+        x = sorted(todo)[0]
+        for blk, st in todo[x]:
+            i = blk.index(st)
+            val = st.value
+
+            class R(ast.NodeTransformer):
+                def visit_Name(self, n):
+                    return copy.deepcopy(val) if (n.id == x and isinstance(n.ctx, ast.Load)) else n
+            blk[i + 1] = R().visit(blk[i + 1])
+            del blk[i]
+    return fn
+
+
+def resolved(func_node, expr, depth=3):
+    """expr, or — when it is a local name with exactly one plain definition `x = e` in the function — that definition (followed
+    through up to `depth` such names).  Lets a rule look at a value whether or not the developer named it."""
+    while depth > 0 and isinstance(expr, ast.Name):
+        defs = []
+        nstores = 0
+        for n in ast.walk(func_node):
+            if isinstance(n, ast.Name) and n.id == expr.id and isinstance(n.ctx, ast.Store):
+                nstores += 1
+            if isinstance(n, ast.Assign) and len(n.targets) == 1 and isinstance(n.targets[0], ast.Name) and n.targets[0].id == expr.id:
+                defs.append(n.value)
+            if isinstance(n, ast.AugAssign) and isinstance(n.target, ast.Name) and n.target.id == expr.id:
+                nstores += 1
+        if len(defs) != 1 or nstores != 1:
+            break
+        expr = defs[0]
+        depth -= 1
+    return expr
